@@ -163,6 +163,33 @@ func instrument(rel string, src []byte, keepFuncs []string) []byte {
 		f.Name.Name = "crngmain"
 	}
 
+	// tuning knobs: a large literal channel capacity (badmetrics' 100000-record queue) becomes simrt.Knob(site, n), which is n in
+	// half of the runs and a handful in the others, so that the "queue is full" path is reachable with a small workload
+	ast.Inspect(f, func(n ast.Node) bool {
+		ce, ok := n.(*ast.CallExpr)
+		if !ok || len(ce.Args) != 2 {
+			return true
+		}
+		if id, ok := ce.Fun.(*ast.Ident); !ok || id.Name != "make" {
+			return true
+		}
+		if _, ok := ce.Args[0].(*ast.ChanType); !ok {
+			return true
+		}
+		lit, ok := ce.Args[1].(*ast.BasicLit)
+		if !ok || lit.Kind != token.INT {
+			return true
+		}
+		if v, err := strconv.Atoi(lit.Value); err != nil || v < 1000 {
+			return true
+		}
+		site := fmt.Sprintf("%s:%d", rel, fset.Position(ce.Pos()).Line)
+		ce.Args[1] = &ast.CallExpr{Fun: &ast.SelectorExpr{X: ast.NewIdent("simrt"), Sel: ast.NewIdent("Knob")},
+			Args: []ast.Expr{&ast.BasicLit{Kind: token.STRING, Value: strconv.Quote(site)}, lit}}
+		stats["knobs"]++
+		return true
+	})
+
 	// collect every function body first; statement recursion never enters expressions,
 	// so each body is rewritten exactly once
 	var bodies []*ast.BlockStmt
